@@ -45,19 +45,33 @@ func NewDefault() *Config {
 	return cfg
 }
 
-// Writes the configuration to disk.
+// Writes the configuration to disk. The file is replaced only by a complete new version.
 func (c *Config) persist() error {
-	f, err := os.Create(configPath.Path)
+	tmpPath := configPath.Path + ".tmp"
+	f, err := os.Create(tmpPath)
 	if err != nil {
-		slog.Error("Failed to create config file", "path", configPath.Path, "error", err)
+		slog.Error("Failed to create config file", "path", tmpPath, "error", err)
 		return fmt.Errorf("%w: failed to open config file for writing '%s'", ErrConfigFileOpen, configPath.Path)
 	}
-	defer f.Close()
 
 	enc := json.NewEncoder(f)
 	enc.SetIndent("", "  ") // Pretty print the JSON output
-	if err := enc.Encode(c); err != nil {
+	err = enc.Encode(c)
+	if err == nil {
+		err = f.Sync()
+	}
+	if closeErr := f.Close(); err == nil {
+		err = closeErr
+	}
+	if err != nil {
+		os.Remove(tmpPath)
 		slog.Error("Failed to encode config to JSON", "path", configPath.Path, "error", err)
+		return fmt.Errorf("%w: failed to write config to file '%s'", ErrConfigFileWrite, configPath.Path)
+	}
+
+	if err := os.Rename(tmpPath, configPath.Path); err != nil {
+		os.Remove(tmpPath)
+		slog.Error("Failed to replace config file", "path", configPath.Path, "error", err)
 		return fmt.Errorf("%w: failed to write config to file '%s'", ErrConfigFileWrite, configPath.Path)
 	}
 
